@@ -99,8 +99,10 @@ func (k Keeper) ExecuteVote(ctx context.Context, id uint64) error {
 			}
 		}
 		// refund the reporters bond to the reporter plus the remaining disputeFee; goes to bonded pool
-		dispute.SlashAmount = dispute.SlashAmount.Add(disputeFeeMinusBurn)
-		if err := k.ReturnSlashedTokens(ctx, dispute); err != nil {
+		// (on a copy: the stored slash amount stays the dispute fee that AddFeeToDispute compares the fee total with)
+		refund := dispute
+		refund.SlashAmount = dispute.SlashAmount.Add(disputeFeeMinusBurn)
+		if err := k.ReturnSlashedTokens(ctx, refund); err != nil {
 			return err
 		}
 		vote.Executed = true
